@@ -88,3 +88,19 @@ func VH_C06_zuc_prefix() {
 	b := Zuc(k, iv, uint32(n+3))
 	vrt.Equal(a, b[:n], "Zuc(n) is a prefix of Zuc(n+3)")
 }
+
+// long keystreams (see the SNOW 3G twin): up to 16384 words
+func VH_C06_zuc_keystream_long() {
+	ns := []int{1025, 4097}
+	if vrt.Thorough() {
+		ns = []int{1025, 4097, 8193, 16384}
+	}
+	n := ns[vrt.Choose("nsel", 0, len(ns)-1)]
+	k := vrt.Bytes("k", 16)
+	iv := vrt.Bytes("iv", 16)
+	ks := Zuc(k, iv, uint32(n))
+	kr := ref.ZUCKeystream(k, iv, n)
+	vrt.Assert(len(ks) == n, "Zuc returns n words (long)")
+	vrt.Equal(ks[n-3:], kr[n-3:], "the last words of a long ZUC keystream are the reference words")
+	vrt.Equal(ks[n/2:n/2+2], kr[n/2:n/2+2], "words in the middle of a long ZUC keystream are the reference words")
+}
